@@ -197,7 +197,7 @@ def arm_guarded(prog, dctx, arm, guard, depth, found):
             continue
         idx = len(dctx.body.blocks[bb]["stmts"])
         params = {i + 1: dctx.T.operand(a, bb, idx) for i, a in enumerate(t["args"])}
-        ok, off = guarded(Ctx(hb, params=params), guard, prog, depth, found)
+        ok, off = guarded(dctx.sub(hb, params=params).settle(), guard, prog, depth, found)
         if not ok:
             offenders.append(off)
     return (not offenders), offenders
@@ -209,7 +209,9 @@ def handler_ctx(prog, dctx, arm):
     hb = prog.body(t.get("rkey"))
     idx = len(dctx.body.blocks[bb]["stmts"])
     params = {i + 1: dctx.T.operand(a, bb, idx) for i, a in enumerate(t["args"])}
-    return Ctx(hb, params=params)
+    # settled: branches decided by the arguments the dispatcher passes (a mode flag, a constant)
+    # are pruned, so a handler shared by several variants is analysed once per variant
+    return Ctx(hb, params=params).settle()
 
 
 # ------------------------------------------------------------------ struct deltas (P7)
@@ -313,6 +315,15 @@ def fold(t):
 
 
 def _fold(t):
+    if t[0] == "item":
+        # a named integer constant is its literal
+        import engine.mir as _m
+        init = _m.CURRENT.const_init(t[1]) if _m.CURRENT is not None else None
+        if init is not None:
+            init = fold(init)
+            if init[0] == "const" and init[1] == "int":
+                return init
+        return t
     if t[0] == "field" and t[2] == "0" and t[1][0] == "bin" and t[1][1].endswith("WithOverflow"):
         return fold(t[1])
     if t[0] == "bin":
@@ -333,7 +344,7 @@ def _fold(t):
     if t[0] == "upd":
         return ("upd", fold(t[1]), t[2], fold(t[3]))
     if t[0] == "mut":
-        return ("mut", fold(t[1]), t[2], tuple(fold(a) for a in t[3]))
+        return ("mut", fold(t[1]), t[2], tuple(fold(a) for a in t[3])) + tuple(t[4:])
     if t[0] in ("tuple", "array"):
         return (t[0], tuple(fold(a) for a in t[1]))
     return t
@@ -417,3 +428,41 @@ def ordering_outcomes(ctx, is_x, is_y):
         w = ctx.with_removed(rem).settle()
         out[o] = any(e["kind"] != "err" for e in exits(w))
     return out, len(atoms)
+
+
+# ------------------------------------------------------------------ membership tests (idioms)
+
+
+def eq_closure_of(prog, clo, elem_ok):
+    """closure |x| x == <elem> (either order; `!=` gives False): returns True for ==, False for !=, None otherwise"""
+    res = closure_result(prog, clo, params={2: ("elem",)}) if clo[0] == "closure" else None
+    if res is None or res[0] != "call" or res[1] not in EQ:
+        return None
+    a, b = res[2]
+    if (a == ("elem",) and elem_ok(b)) or (b == ("elem",) and elem_ok(a)):
+        return EQ[res[1]]
+    return None
+
+
+def membership(prog, t, coll_ok, elem_ok):
+    """is boolean term t a test of `elem in coll`?  returns True if t is true exactly for members,
+    False if t is true exactly for non-members, None if t is not such a test.  Spellings:
+    iter().any(|x| x == e), contains(&e), iter().position/find(|x| x == e).is_some()/is_none(),
+    iter().all(|x| x != e)."""
+    if t[0] != "call":
+        return None
+    nm = t[1]
+    last = nm.split("::")[-1]
+    if last == "any" and nm.endswith("Iterator::any") and len(t[2]) == 2 and coll_ok(t[2][0]):
+        e = eq_closure_of(prog, t[2][1], elem_ok)
+        return True if e is True else None
+    if last == "all" and nm.endswith("Iterator::all") and len(t[2]) == 2 and coll_ok(t[2][0]):
+        e = eq_closure_of(prog, t[2][1], elem_ok)
+        return False if e is False else None
+    if last == "contains" and ("slice" in nm or "Vec" in nm) and len(t[2]) == 2 and coll_ok(t[2][0]) and elem_ok(t[2][1]):
+        return True
+    if nm in ("std::option::Option::is_some", "std::option::Option::is_none") and t[2]:
+        x = t[2][0]
+        if x[0] == "call" and x[1].split("::")[-1] in ("position", "find") and "Iterator" in x[1] and len(x[2]) == 2 and coll_ok(x[2][0]) and eq_closure_of(prog, x[2][1], elem_ok) is True:
+            return nm.endswith("is_some")
+    return None
